@@ -55,6 +55,10 @@ CLAIMED.update({
  'C05': dict(technique='finite-table extraction from MIR (State variant -> increments / displayed numbers) compared with the specification table; must-call + provenance rules for per-hunk initialisation (incl. the coordinate parser reading only the text between the @@ markers); abstract evaluation of the line painter over the panel domain',
     text='Decides the increment/number table for all 16 State variants, that counters are re-seeded from the first/last coordinate pair on every path of the hunk-header emitter, and that increment=false exactly for the Left panel.',
     note=RULE_NOTE + ' Not decided: side-by-side compensation arithmetic, widths, header text.', design='5/C05'),
+ 'C06': dict(technique='MIR provenance rule on the operation tags of self-built annotated lines, must-pass / pairing rule between line pushes and alignment-entry pushes, monotone-cursor rule (only += 1, increment after every use), call-graph unreachability for the unchanged-line painter',
+    text='Decides only the structural clauses of C06: lines emitted without a partner are tagged from the no-op operation vectors only (no emphasis); every annotated line gets exactly one alignment entry; the plus cursor and the enumerate() minus index make successive alignment entries strictly increasing in both components (pairs never cross, no plus line paired twice); unchanged lines never reach edit inference. '
+         'NOT decided (values): that the emphasised parts are a valid / minimal edit, contiguity and size of the emphasis, distance thresholds, whitespace coalescing.',
+    note=RULE_NOTE + ' The alignment algorithm itself (align.rs) is not analysed; a change confined to its arithmetic is outside what this check can see.', design='6, 11.11'),
  'C07': dict(technique='MIR must-pass / ordering rule on the alignment loop of the side-by-side painter, table agreement of MinusPlus indices and alignment-pair components per panel, sibling agreement of paint/pad sides, constant-array order for unchanged lines',
     text='Decides only the structural clauses of C07: every side-by-side row is left panel + right panel + newline, appended once each and in order on every path; the left panel is fed exclusively from Left(minus)-indexed data and component 0 of the alignment pair, the right panel from Right(plus)-indexed data and component 1; a panel line is padded for the side it was painted for; unchanged lines are painted for Left then Right with one newline per row. '
          'NOT decided (value-level arithmetic over display widths): panel widths, wrap points, losslessness of wrapping, truncation marks, that no row exceeds the width, column alignment.',
@@ -88,7 +92,6 @@ CLAIMED.update({
     note=RULE_NOTE + ' Absolute-path and URL template correctness not decided.', design='5/C19'),
 })
 NOT_APPLICABLE = {
- 'C06': 'Soundness/minimality of a dynamic-programming token alignment and a distance threshold over all string pairs: arithmetic on runtime values; no structural necessary condition beyond what the 35 unit tests already pin (DESIGN.md section 6).',
 }
 PENDING = 'check not built yet in this round (designed in DESIGN.md section 5; will be claimed when its rule set runs clean)'
 
